@@ -2,6 +2,9 @@
 Lean spec `conforms` over generated (annotation, value) pairs, mostly conforming with one-position corruptions."""
 import json
 import _checker_common as K
+import _call_common as C
+import C03 as _C03
+import C10 as _C10
 
 RULE = ('type-directed: annotation terms over the vocabulary (classes, Any, None, Union/Optional/X|Y, Literal, NewType, Type[..], forward '
         'references, list/set/frozenset/deque/abstract-collection/dict/defaultdict/mapping/tuple generics in typing and PEP 585 spelling, '
@@ -17,6 +20,10 @@ TRUSTED = ['reflection term <- typing object (harness/props/_checker_common.refl
 def cases(rng, tier):
     n = 12000 if tier == 'quick' else 150000
     out = K.gen_checker_cases(rng, n) + K.name_family()
+    # the two other routes into the checker that the statement names: a @pedantic call and a type-safe frozen dataclass
+    m = 300 if tier == 'quick' else 3000
+    out += C.build_cases(rng, m, calls_per=3, style='kw', tag='c01c') + C.scenario_cases(rng, m // 2, style='kw', tag='c01s')
+    out += _C10.build_cases(rng, m // 3, 'c01d')
     if tier == 'thorough':
         vals = K.small_values()
         for at in K.small_terms():
@@ -29,10 +36,30 @@ def search(rng, tier, near):
     return K.gen_checker_cases(rng, 40000)
 
 
-run_impl = K.run_impl_checker
+def run_impl(cases):
+    """three kinds of cases, each executed by the runner of its own layer (results back in the original order)"""
+    runners = {'checker': K.run_impl_checker, 'calllayer': C.run_impl_calls, 'typesafe': _C10.run_impl}
+    out = [None] * len(cases)
+    for kind, run in runners.items():
+        idx = [i for i, c in enumerate(cases) if c['m'] == kind]
+        for i, r in zip(idx, run([cases[i] for i in idx])):
+            out[i] = r
+    return out
 
 
 def judge(case, impl, model):
+    if case['m'] == 'calllayer':          # acceptance by a @pedantic call: C03's oracle (body ran / value returned => conforms)
+        j = _C03.judge(case, impl, model)
+        if j.get('finding') == 'namedtupleStructuralArgument':
+            j['finding'] = 'namedtupleStructural'
+        j['tag'] = 'call/' + j['tag']
+        return j
+    if case['m'] == 'typesafe':           # acceptance by a type-safe frozen dataclass: only the soundness direction belongs to C01
+        j = _C10.judge(case, impl, model)
+        if j.get('pfail') and 'does not conform' not in j['pfail']:
+            j['pfail'] = None; j['finding'] = None
+        j['tag'] = 'dataclass/' + j['tag']
+        return j
     assert model['wf'], 'harness bug: value is not well-formed w.r.t. the class table: ' + json.dumps(case['c']['val'])
     io = impl['out']
     if io.startswith('unbuildable'):
